@@ -68,7 +68,7 @@ M = {
         ("default arguments silently ignored", _fc,
          "    if func_def.args.defaults:\n", "    if func_def.args.defaults and False:\n", "R-C32.3"),
         ("variadic parameter silently ignored", _fc,
-         "    if func_def.args.vararg is not None:\n        raise GuppyError(UnsupportedError(func_def.args.vararg, \"Variadic args\"))\n", "", "R-C32.3"),
+         "    if func_def.args.vararg is not None:\n        raise GuppyError(UnsupportedError(func_def.args.vararg, \"Variadic args\"))\n", "", "R-C32."),
         ("benign: orelse test spelled with len()", _b,
          "    def visit_While(self, node: ast.While, bb: BB, jumps: Jumps) -> BB | None:\n        if node.orelse:",
          "    def visit_While(self, node: ast.While, bb: BB, jumps: Jumps) -> BB | None:\n        if len(node.orelse) > 0:", None),
